@@ -676,8 +676,7 @@ class Ovld:
 
         This should be replaced by an auto-generated function.
         """
-        if not self._compiled:
-            self.compile()
+        self.ensure_compiled()
         return self.dispatch(*args, **kwargs)
 
     @_setattrs(rename="next")
